@@ -77,12 +77,19 @@ func (engC17) Gen(r *Rng, s *Script, idx int, tier string) {
 	npool := r.Range(1, 4)
 	s.Config["tasks"] = nt
 	s.Config["pool"] = npool
+	if r.Chance(1, 4) {
+		s.Config["overwrite_builtin"] = 1 // pool index npool is then a built-in name
+	}
 	total := 0
 	for t := 0; t < nt; t++ {
 		n := r.Range(3, 12)
 		var steps []Step
 		for i := 0; i < n; i++ {
-			steps = append(steps, genRegStep(r, npool))
+			st := genRegStep(r, npool)
+			if s.Config["overwrite_builtin"] == 1 && r.Chance(1, 4) && (st.Op == "reg" || st.Op == "named" || st.Op == "setdeco") {
+				st.A = npool
+			}
+			steps = append(steps, st)
 		}
 		s.Tasks = append(s.Tasks, steps)
 		total += n
@@ -93,7 +100,7 @@ func (engC17) Gen(r *Rng, s *Script, idx int, tier string) {
 func runRegTasks(s *Script, keepLog bool, probe func(rr *RegRun, task int, st *Step, log *EventLog) *Violation) (*RegRun, *Sched, *EventLog, *Violation) {
 	installHooks()
 	log := NewEventLog(keepLog)
-	rr := NewRegRun(s.Seed, s.Cfg("pool", 3))
+	rr := NewRegRun(s.Seed, s.Cfg("pool", 3), s.Cfg("overwrite_builtin", 0) == 1)
 	sc := NewSched(s.Schedule, log)
 	var firstV *Violation
 	for t := range s.Tasks {
@@ -122,7 +129,7 @@ func (engC17) Exec(s *Script, keepLog bool) *Result {
 	// finale: registrations have finished
 	for i := range rr.pool {
 		rr.DoReg(-1, &Step{Op: "named", A: i}, log)
-		rr.DoReg(-1, &Step{Op: "setdeco", A: i}, log)
+		rr.DoReg(-1, &Step{Op: "setdeco", A: i, B: i % 4}, log)
 	}
 	rr.DoReg(-1, &Step{Op: "names"}, log)
 	if len(sc.Panics) > 0 {
@@ -204,6 +211,8 @@ func (engC19) Gen(r *Rng, s *Script, idx int, tier string) {
 			st := Step{Op: "reg", A: r.Intn(npool), B: r.Intn(20)}
 			if r.Chance(1, 10) {
 				st.C = 1
+			} else if r.Chance(1, 10) {
+				st.C = 2
 			}
 			steps = append(steps, st)
 		}
@@ -308,7 +317,7 @@ func (engC16) Assumptions() []string {
 func (engC16) Gen(r *Rng, s *Script, idx int, tier string) {
 	nt := r.Range(2, 4)
 	s.Config["tasks"] = nt
-	s.Config["pool"] = 2
+	s.Config["pool"] = 4
 	total := 0
 	focus := -1
 	if r.Chance(2, 3) {
@@ -327,6 +336,11 @@ func (engC16) Gen(r *Rng, s *Script, idx int, tier string) {
 		steps = append(steps, Step{Op: "new", A: r.Intn(7)})
 		if r.Chance(3, 4) {
 			steps = append(steps, Step{Op: "headers", Items: genItems(r, r.Range(1, 4), 2, &ctr)})
+		}
+		if r.Chance(1, 25) {
+			// a tall table (a library might treat big tables differently)
+			steps = append(steps, Step{Op: "bulkRows", A: r.Range(96, 130), B: r.Range(1, 3)})
+			s.Config["tall_table"] = 1
 		}
 		if r.Chance(2, 3) {
 			// values that independent tables typically have in common
@@ -371,12 +385,12 @@ func (engC16) Gen(r *Rng, s *Script, idx int, tier string) {
 		s.Tasks = append(s.Tasks, steps)
 		total += len(steps) * 12
 	}
-	if r.Chance(1, 2) {
+	for nreg := r.Pick([]int{3, 4, 2}); nreg > 0; nreg-- {
 		var steps []Step
 		for i := r.Range(3, 10); i > 0; i-- {
 			switch r.Intn(4) {
 			case 0:
-				steps = append(steps, Step{Op: "reg", A: r.Intn(2), B: r.Intn(20)})
+				steps = append(steps, Step{Op: "reg", A: r.Intn(4), B: r.Intn(20)})
 			case 1:
 				steps = append(steps, Step{Op: "named", A: r.Intn(11)})
 			case 2:
@@ -479,7 +493,7 @@ func (engC16) Exec(s *Script, keepLog bool) *Result {
 		}
 	}
 	// concurrent execution under the scheduler
-	rr := NewRegRun(s.Seed, 2)
+	rr := NewRegRun(s.Seed, 4)
 	sc := NewSched(s.Schedule, log)
 	conc := make([]*taskResult, len(s.Tasks))
 	for t := range s.Tasks {
